@@ -46,7 +46,7 @@ fn layouts(all: bool) -> Vec<Layout> {
                             if !all && (label_own_line && comment == 1) {
                                 continue;
                             }
-                            v.push(Layout { case, sep, colon, label_own_line, comment, blank_lines: comment == 2, end: if indent.is_empty() { 0 } else { 1 }, indent, one_line: false });
+                            v.push(Layout { case, sep, colon, label_own_line, comment, blank_lines: comment == 2, end: if indent.is_empty() { 0 } else { 1 }, indent, one_line: false, trailing_sep: label_own_line != colon });
                         }
                     }
                 }
